@@ -25,17 +25,18 @@ Plain(l) == [l |-> l, code |-> 200]
 
 NetLetters  == {"badstatus", "badheader", "hugeheader", "closebefore", "closeduring", "refused", "timeout"}
 BodyLetters == {"trunc", "badchunk"}
-OddLetters  == {"early", "empty", "big", "notjson", "nothtml", "shorthdr", "nohdr"}
+OddLetters  == {"early", "empty", "big", "notjson", "jsonarr", "nothtml", "shorthdr", "nohdr"}
 HttpLetters == {StatusLetter(c) : c \in StatusCodes} \cup {Plain(l) : l \in NetLetters \cup BodyLetters \cup OddLetters}
 
 \* attributes of the response the client gets to see
 NetFails(x)   == x.l \in NetLetters                      \* no response at all: transport error
 BodyFails(x)  == x.l \in BodyLetters                     \* status and headers arrive, reading the body fails
 Code(x)       == IF x.l = "status" THEN x.code ELSE 200
+\* the body is a JSON object in which $.tok and $.list[0] exist ("jsonarr" is valid JSON, but an array)
 BodyJSON(x)   == CASE x.l = "status" -> ~NoBody(x.code)
                    [] x.l \in {"early", "big", "shorthdr", "nohdr"} -> TRUE
                    [] OTHER -> FALSE
-BodyHasTok(x) == BodyJSON(x) \/ x.l = "notjson"          \* the byte string "tok" occurs in the body
+BodyHasTok(x) == BodyJSON(x) \/ x.l \in {"notjson", "jsonarr"}          \* the byte string "tok" occurs in the body
 HdrTok(x)     == CASE x.l \in {"shorthdr"} -> "short" [] x.l = "nohdr" -> "absent" [] OTHER -> "long"
 
 \* gRPC: the status the server returns / what happens to the call
